@@ -39,7 +39,7 @@ def c02() -> int:
     # double claim is not masked by the models' own 0 / total guards
     fsx(c, RES + ({"variant": "core", "slots": 2, "low_energy": False, "name": "W-res/two-slots"},), ("hivemc.bundles", "c02", {}), K=3, H=5 if quick else 7,
         needs=["c02:two_holders"])
-    auto_worlds(c, "c02", quick)
+    auto_worlds(c, "c02", quick, grid=True)
     if not quick:
         fsx(c, RES + ({"variant": "core", "slots": 2, "low_energy": False, "name": "W-res/two-slots/menu-probe"},), ("hivemc.bundles", "c02_probe", {}), K=2, H=7, needs=["c02:menu_probe"])
     bisim(c, RES + ({"variant": "core", "pairs": False},), K=1 if quick else 2, H=3 if quick else 4)
@@ -49,7 +49,7 @@ def c02() -> int:
 AUTO = ("hivemc.w_auto", "make")
 
 
-def auto_worlds(c, bundle: str, quick: bool, make=AUTO, extra=None, needs=()):
+def auto_worlds(c, bundle: str, quick: bool, make=AUTO, extra=None, needs=(), grid: bool = False):
     """the default control stack left to run (Dispatcher + ChargingFleetManager + drivers' own logic), the environment only
     deciding when the requests arrive -- long horizon; and the same with a scripted controller overriding it -- short horizon"""
     kw = dict(extra or {})
@@ -58,6 +58,9 @@ def auto_worlds(c, bundle: str, quick: bool, make=AUTO, extra=None, needs=()):
                "auto:Idle:DispatchBase:DispatchBase", "default:ChargingBase>ReserveBase", "default:DispatchBase>ReserveBase",
                "default:ChargingStation>Idle|auto:ChargingStation:Idle:Idle"] + list(needs))
     fsx(c, make + (dict(kw, controller=True),), ("hivemc.bundles", bundle, {}), K=2, H=7 if quick else 9)
+    if grid:
+        # the same default control stack on the street grid (several links per route, off-street addresses)
+        fsx(c, GRID + ({"auto": True},), ("hivemc.bundles", bundle, {}), K=2, H=12 if quick else 20)
 
 
 def c07() -> int:
@@ -79,7 +82,7 @@ def c07() -> int:
         needs=["instr:Idle:ChargeBase:ChargingBase", "instr:ChargingStation:ChargeBase:ChargingStation|instr:Idle:ChargeBase:Idle"])
     fsx(c, ("hivemc.w_prec", "make", {}), ("hivemc.bundles", "c07", {}), K=2 if quick else 3, H=6 if quick else 8)
     fsx(c, REQ + ({"requests": ["p0", "p1", "r2"], "name": "W-req/pooling", "prestart": ("p0", "p1")},), ("hivemc.bundles", "c07", {}), K=2 if quick else 3, H=8 if quick else 10, needs=["c07:pickup", "c07:dropoff"])
-    auto_worlds(c, "c07", quick, needs=["c07:pickup", "c07:dropoff"])
+    auto_worlds(c, "c07", quick, grid=True, needs=["c07:pickup", "c07:dropoff"])
     from .enum_pooling import run as pooling_plans
 
     pooling_plans(c, "C07")
@@ -149,7 +152,7 @@ def c04() -> int:
     # stations whose plug rates were lowered at run time
     fsx(c, RES + ({"variant": "core", "gas": True, "mechs": ("thirsty", "tiny_thirsty", "ice"), "throttle": 0.24, "name": "W-res/energy/throttled"},),
         ("hivemc.bundles", "c04", {}), K=2, H=6 if quick else 8, needs=["c04:charged:BEV:ChargingStation", "c04:charged:BEV:ChargingBase"])
-    auto_worlds(c, "c04", quick)
+    auto_worlds(c, "c04", quick, grid=True)
     return c.finish()
 
 
@@ -190,7 +193,7 @@ def c06() -> int:
         needs=["default:DispatchStation>Idle|default:DispatchStation>ChargingStation"])
     c.assumptions += ["speeds >= 10 km/h; links never declared shorter than the straight line; H3 resolution 15",
                       "journeys use a half-charged vehicle (the full-battery arrival is exercised in the FSX worlds)"]
-    auto_worlds(c, "c06", quick)
+    auto_worlds(c, "c06", quick, grid=True)
     return c.finish()
 
 
@@ -205,7 +208,7 @@ def c08() -> int:
         needs=["default:DispatchTrip>ServicingTrip", "default:ServicingTrip>Idle", "env:R"])
     fsx(c, REQ + ({},), ("hivemc.bundles", "c08", {}), K=3 if quick else 4, H=8 if quick else 10)
     fsx(c, GRID + ({},), ("hivemc.bundles", "c08", {}), K=2 if quick else 3, H=9 if quick else 11)
-    auto_worlds(c, "c08", quick)
+    auto_worlds(c, "c08", quick, grid=True)
     c.assumptions += ["re-adding an id that is already present is outside the alphabet (the API gives it no meaning)"]
     return c.finish()
 
